@@ -11,7 +11,7 @@ import os
 from gen import irgen
 from vlib import core, passlib
 
-COQ_TARGETS = ["Props/C15.vo"]
+COQ_TARGETS = ["Props/C15.vo", "Model/Spec15.vo"]
 PROPS = "Props/C15.v"
 TRUSTED = [
     "hand-written Gallina models of the 19 transformations + visitor (coq/Model/Passes.v); PassesTrail (debug text) and error messages are not modelled or compared",
